@@ -166,6 +166,11 @@ enum G {
     Prog { r: u16, acts: Vec<Act> },
     Drop { r: u16 },
     Sched(Op),
+    /// A run of sets on one persistent lane directly followed by a sync of that lane (all delivered
+    /// to the agent together), then the system is polled in small steps with the syncing remote
+    /// reading in between. This is how a lane gets a sync request while its writer is busy and a newer
+    /// state is waiting: the sync response then carries a state that has not been broadcast yet.
+    Burst { r: u16, lane: u8, keys: Vec<i32>, other_syncer: Option<u16>, steps: Vec<(usize, usize)> },
 }
 
 fn arb_params() -> impl Strategy<Value = SimParams> {
@@ -202,7 +207,19 @@ fn arb_act() -> impl Strategy<Value = Act> {
 
 fn arb_g() -> impl Strategy<Value = G> {
     prop_oneof![
-        2 => (arb_small_cap(), arb_small_cap()).prop_map(|(in_cap, out_cap)| G::Attach { in_cap, out_cap }),
+        // request channels either tiny (partial envelopes) or roomy (several envelopes delivered within
+        // one poll); response channels mostly tiny (slow reader)
+        2 => (prop_oneof![1 => arb_small_cap(), 1 => proptest::sample::select(vec![64usize, 128, 512, 4096])], arb_small_cap())
+            .prop_map(|(in_cap, out_cap)| G::Attach { in_cap, out_cap }),
+        3 => (
+            any::<u16>(),
+            // v0 v1 m0 m1
+            prop_oneof![Just(0u8), Just(1), Just(3), Just(4)],
+            proptest::collection::vec(0i32..4, 2..5),
+            prop_oneof![3 => Just(None), 1 => any::<u16>().prop_map(Some)],
+            proptest::collection::vec((1usize..3, prop_oneof![2 => Just(usize::MAX), 1 => 1usize..40]), 3..14),
+        )
+            .prop_map(|(r, lane, keys, other_syncer, steps)| G::Burst { r, lane, keys, other_syncer, steps }),
         5 => (any::<u16>(), 0u8..6).prop_map(|(r, lane)| G::Link { r, lane }),
         3 => (any::<u16>(), 0u8..6).prop_map(|(r, lane)| G::Sync { r, lane }),
         1 => (any::<u16>(), 0u8..6).prop_map(|(r, lane)| G::Unlink { r, lane }),
@@ -265,6 +282,27 @@ fn build_case(params: SimParams, cascade: bool, gs: Vec<G>, gs2: Vec<G>, plan: C
     let mut convert = |gs: Vec<G>, ops: &mut Vec<Op>| {
         for g in gs {
             let op = match g {
+                G::Burst { r, lane, keys, other_syncer, steps } => {
+                    for k in keys {
+                        let body = if lane < 3 {
+                            fresh().to_string()
+                        } else {
+                            map_cmd_body(lane - 3, MapMessage::Update { key: k, value: fresh() })
+                        };
+                        ops.push(Op::Cmd { r, lane, body });
+                    }
+                    let syncer = other_syncer.unwrap_or(r);
+                    ops.push(Op::Sync { r: syncer, lane });
+                    ops.push(Op::Pump { r, n: usize::MAX });
+                    if syncer != r {
+                        ops.push(Op::Pump { r: syncer, n: usize::MAX });
+                    }
+                    for (k, n) in steps {
+                        ops.push(Op::Poll { k });
+                        ops.push(Op::Read { r: syncer, n });
+                    }
+                    continue;
+                }
                 G::Attach { in_cap, out_cap } => Op::Attach { in_cap, out_cap },
                 G::Link { r, lane } => Op::Link { r, lane },
                 G::Sync { r, lane } => Op::Sync { r, lane },
@@ -295,7 +333,7 @@ fn build_case(params: SimParams, cascade: bool, gs: Vec<G>, gs2: Vec<G>, plan: C
         }
     };
     // every case starts with a remote so that later ops have a target
-    let mut ops = vec![Op::Attach { in_cap: 64, out_cap: 32 }];
+    let mut ops = vec![Op::Attach { in_cap: 4096, out_cap: 32 }];
     convert(gs, &mut ops);
     // the history always ends with everything delivered; the cuts range over the whole run
     ops.push(Op::Settle);
@@ -857,6 +895,7 @@ fn judge(obs: &RunObs, v: &mut Verdict) -> RunStats {
     let mut store_ops_before_cut = 0usize;
     let mut persistent_event_frames = 0usize;
     let mut lost_tail = false;
+    let mut sync_ahead = false;
 
     for (pi, ph) in obs.phases.iter().enumerate() {
         let inc = pi + 1;
@@ -1139,11 +1178,33 @@ fn judge(obs: &RunObs, v: &mut Verdict) -> RunStats {
                             None => h.iter().skip(*i).any(|s| s.is_none()),
                         };
                         if !ok {
+                            // classify the cause: the entry the subscriber saw was handed to the store
+                            // *ahead of* a clear that precedes it in the lane's own history (so the
+                            // clear, persisted afterwards, wiped the newer entry from the store)
+                            let mut sig = "restart:older-than-seen:map-lane".to_string();
+                            if let Some(Some(v_seen)) = h.get(*i) {
+                                let upd_seq = ph.trace.iter().find_map(|(s, e)| match e {
+                                    PEv::Update { map, k: kk, v } if *map == it.trace_idx && kk == k && v == v_seen => Some(*s),
+                                    _ => None,
+                                });
+                                let pos = entries.iter().position(|e| e.applied && e.op == TOp::Upd(k.clone(), *v_seen));
+                                if let (Some(us), Some(p)) = (upd_seq, pos) {
+                                    let clears_in_lane_before = ph
+                                        .trace
+                                        .iter()
+                                        .filter(|(s, e)| matches!(e, PEv::Clear { map } if *map == it.trace_idx) && *s < us)
+                                        .count();
+                                    let clears_in_store_before = entries[..p].iter().filter(|e| e.op == TOp::Clr).count();
+                                    if clears_in_store_before < clears_in_lane_before {
+                                        sig.push_str("/entry-persisted-ahead-of-earlier-clear");
+                                    }
+                                }
+                            }
                             v.fail(
-                                "restart:older-than-seen:map-lane",
+                                sig,
                                 format!(
-                                    "{} lane {} key {:?}: the entry restored by the next incarnation, {:?}, is older than history index {} which a subscriber had already read; history of the key: {:?}",
-                                    ctx, it.name, k, restored.get(k), i, h
+                                    "{} lane {} key {:?}: the entry restored by the next incarnation, {:?}, is older than history index {} which a subscriber had already read; history of the key: {:?}; store operations of the lane in this incarnation: {:?}",
+                                    ctx, it.name, k, restored.get(k), i, h, show_entries()
                                 ),
                             );
                         }
@@ -1164,6 +1225,30 @@ fn judge(obs: &RunObs, v: &mut Verdict) -> RunStats {
                 }
                 let mut seen_max = 0usize;
                 for (ri, frames) in ph.remotes.iter().enumerate() {
+                    // generator-distribution class: a sync response (the last event before a `synced`)
+                    // that was read while the only store call for its state was the one made for the
+                    // sync response itself, i.e. the lane answered the sync *before* it broadcast that
+                    // state and the remote read the frame before the broadcast event was persisted
+                    let mut last_event: Option<&Frame> = None;
+                    for f in frames.iter().filter(|f| f.lane == it.name) {
+                        match &f.kind {
+                            FrameKind::Event(_) => last_event = Some(f),
+                            FrameKind::Synced => {
+                                if let Some(val) = last_event.and_then(|e| match &e.kind {
+                                    FrameKind::Event(b) => parse_i64(b).map(|x| (x, e.seq)),
+                                    _ => None,
+                                }) {
+                                    let (x, t) = val;
+                                    let puts_before = entries.iter().filter(|e| e.op == TOp::Put(x) && e.seq < t).count();
+                                    if hist.iter().position(|h| *h == x).unwrap_or(0) > 0 && puts_before == 1 {
+                                        sync_ahead = true;
+                                    }
+                                }
+                                last_event = None;
+                            }
+                            _ => last_event = None,
+                        }
+                    }
                     for f in frames.iter().filter(|f| f.lane == it.name) {
                         let FrameKind::Event(body) = &f.kind else { continue };
                         if pi == 0 {
@@ -1224,6 +1309,9 @@ fn judge(obs: &RunObs, v: &mut Verdict) -> RunStats {
         .count();
     stats.nontrivial = store_ops_before_cut >= 1 && persistent_event_frames >= 1 && mutations >= 3;
     stats.classes.push(cut_class(obs));
+    if sync_ahead {
+        stats.classes.push("value-sync-response-read-before-its-state-was-broadcast");
+    }
     if lost_tail {
         stats.classes.push("lane-newer-than-store-at-cut");
         if obs.completed && matches!(obs.cut, Cut::Stop(_) | Cut::Timeout) {
